@@ -10,7 +10,6 @@ use parking_lot::Mutex;
 use serde::Serialize;
 use serde_json::{json, Value};
 use std::collections::VecDeque;
-use std::panic::{catch_unwind, AssertUnwindSafe};
 use vrt::{Flavour, Policy};
 
 #[derive(Clone, Copy, Debug, PartialEq, Eq, Hash, Serialize)]
@@ -534,16 +533,6 @@ impl MaybeResult for Result<String, String> {
 // Driver
 // ---------------------------------------------------------------------------------------
 
-fn panic_text(p: Box<dyn std::any::Any + Send>) -> String {
-    if let Some(s) = p.downcast_ref::<&str>() {
-        s.to_string()
-    } else if let Some(s) = p.downcast_ref::<String>() {
-        s.clone()
-    } else {
-        "<non-string panic>".into()
-    }
-}
-
 fn panic_class(msg: &str) -> &'static str {
     if msg.contains("already borrowed") || msg.contains("BorrowMutError") || msg.contains("already mutably borrowed") || msg.contains("BorrowError") {
         "refcell-borrow"
@@ -576,7 +565,7 @@ fn run_typed<V: MaybeResult>(case: &CoreCase, focus: Focus) -> CaseOut {
     for (step, op) in case.ops.iter().enumerate() {
         let now = vrt::clock::now_ns();
         let mut info = StepInfo::default();
-        let res = catch_unwind(AssertUnwindSafe(|| match op {
+        let res = crate::infra::guarded(|| match op {
             CoreOp::Get { k } => {
                 let key = format!("k{k}");
                 let got = eng.get(&key);
@@ -608,10 +597,9 @@ fn run_typed<V: MaybeResult>(case: &CoreCase, focus: Focus) -> CaseOut {
                 eng.clear();
                 Some((String::new(), None, eng.snapshot(), 2))
             }
-        }));
+        });
         let applied = match res {
-            Err(p) => {
-                let msg = panic_text(p);
+            Err(msg) => {
                 if focus == Focus::C16 {
                     out.violation = Some(Violation {
                         signature: format!("{}:panic:{}", sig_base, panic_class(&msg)),
@@ -663,10 +651,18 @@ fn run_typed<V: MaybeResult>(case: &CoreCase, focus: Focus) -> CaseOut {
             }
             1 => {
                 // recover tag / fp of the value we stored
-                let (tag, fp) = {
-                    let (CoreOp::Put { v, .. } | CoreOp::PutResult { v, .. }) = op else { unreachable!() };
-                    let val = V::build(v);
-                    (hash_of(&val), val.footprint())
+                // tag / footprint of the value as stored: `insert` moves the value in,
+                // `insert_result*` stores a clone (whose heap capacity may be smaller)
+                let (tag, fp) = match op {
+                    CoreOp::Put { v, .. } => {
+                        let val = V::build(v);
+                        (hash_of(&val), val.footprint())
+                    }
+                    CoreOp::PutResult { v, .. } => {
+                        let val = V::build(v).clone();
+                        (hash_of(&val), val.footprint())
+                    }
+                    _ => unreachable!(),
                 };
                 let existed = model.entries.contains_key(&key);
                 model.store(&key, tag, fp, mem_path, &snap, now, &mut info);
